@@ -86,7 +86,9 @@ func (obj Character) Append(b []byte) []byte {
 		return append(b, s...)
 	}
 	b = append(b, `#\`...)
-	if obj < 0x20 {
+	if obj < 0x20 || (obj < 0x80 && charMode[obj] != skipByte) {
+		// Control characters and the characters the reader does not accept
+		// after #\ are written by code.
 		b = append(b, "u00"...)
 		b = append(b, hexChars[obj>>4])
 		return append(b, hexChars[obj&0x000f])
